@@ -10,13 +10,14 @@ pub mod c07;
 pub mod c08;
 pub mod c09;
 pub mod c09b;
+pub mod c10;
 pub mod c13;
 pub mod c15;
 pub mod c16;
 pub mod c17;
 
 pub fn all_ids() -> Vec<&'static str> {
-    vec!["C01", "C02", "C03", "C04", "C05", "C06", "C07", "C08", "C09", "C13", "C15", "C16", "C17"]
+    vec!["C01", "C02", "C03", "C04", "C05", "C06", "C07", "C08", "C09", "C10", "C13", "C15", "C16", "C17"]
 }
 
 pub fn build(id: &str) -> Option<Property> {
@@ -30,6 +31,7 @@ pub fn build(id: &str) -> Option<Property> {
         "C07" => Some(c07::property()),
         "C08" => Some(c08::property()),
         "C09" => Some(c09::property()),
+        "C10" => Some(c10::property()),
         "C13" => Some(c13::property()),
         "C15" => Some(c15::property()),
         "C16" => Some(c16::property()),
